@@ -4,7 +4,7 @@
    - the hypotheses of the theorems are satisfiable on a non-trivial history. *)
 From Coq Require Import List ZArith NArith Bool.
 From PC.Base Require Import Assoc.
-From PC.Sup Require Import Model Monitors Sim SimC12.
+From PC.Sup Require Import Model Monitors Sim MonC12w SimC12.
 Import ListNotations.
 Open Scope N_scope.
 
